@@ -218,7 +218,8 @@ extern void *mpt_identifier_set(MPT_STRUCT(identifier) *id, const char *name, in
 	addr = (id->_len > id->_max) ? id->_base : 0;
 	if (len) {
 		int post = id->_max - len;
-		dest = name ? memcpy(id->_val, name, len) : memset(id->_val, 0, len);
+		/* new name may be part of current inline data */
+		dest = name ? memmove(id->_val, name, len) : memset(id->_val, 0, len);
 		if (post) {
 			memset(id->_val + len, 0, post);
 		}
